@@ -113,6 +113,7 @@ package cdata
 //@   loop 0 invariant implies(i < length, 0 <= nd.Start + rmaddr(nd.Dims, nd.OffsetStep, i, len(nd.Dims), len(nd.Dims)) && nd.Start + rmaddr(nd.Dims, nd.OffsetStep, i, len(nd.Dims), len(nd.Dims)) < nd.Impl.buflen)
 
 //@ func (*nd{t}C).Apply(nd, loc, dim, step, vals)
+//@   simplify entry-ids
 //@   safety C03
 //@   callsite Set instantiate C01.lemma-idot-upd(old(seq(loc)), seq(loc), seq(nd.OffsetStep), dim, len(loc))
 //@   uses C01.lemma-run-injective, C01.lemma-run-first
